@@ -95,23 +95,25 @@ Section Reset.
     - apply C; auto.
   Qed.
 
-  (* only the node itself and its descendants are touched *)
+  (* only the node itself and its built descendants are touched *)
+  Definition bdesc (n m : nat) : Prop := anc n m /\ m < N /\ b m = true.
+
   Lemma fold_desc f n m :
-    (forall n c m, reset f n c m = c m \/ m = n \/ anc n m) ->
+    (forall n c m, reset f n c m = c m \/ m = n \/ bdesc n m) ->
     forall l c1, (forall ch, In ch l -> In ch (succs n)) ->
-      fold_left (rstep f) l c1 m = c1 m \/ anc n m.
+      fold_left (rstep f) l c1 m = c1 m \/ bdesc n m.
   Proof.
     intros IH. induction l as [|ch l IHl]; intros c1 S; cbn [fold_left]; [left; reflexivity|].
     destruct (IHl (rstep f c1 ch) ltac:(intros; apply S; right; auto)) as [E|A]; auto.
     rewrite E. assert (Sch: In ch (succs n)) by (apply S; left; auto).
     apply succs_spec in Sch. destruct Sch as (LN & Bch & Dn).
     unfold rstep. destruct (is_none (c1 ch)); auto.
-    destruct (IH ch c1 m) as [E1|[->|A]]; auto.
-    - right. now constructor.
-    - right. eapply anc_step; eauto.
+    destruct (IH ch c1 m) as [E1|[->|(A&Lm&Bm)]]; auto.
+    - right. split; [now constructor|auto].
+    - right. split; [eapply anc_step; eauto|auto].
   Qed.
 
-  Lemma reset_desc : forall f n c m, reset f n c m = c m \/ m = n \/ anc n m.
+  Lemma reset_desc : forall f n c m, reset f n c m = c m \/ m = n \/ bdesc n m.
   Proof.
     induction f as [|f IH]; intros n c m; [left; reflexivity|]. rewrite reset_unfold.
     destruct (is_none (c n)); [left; reflexivity|].
@@ -138,7 +140,7 @@ Section Reset.
     repeat split; auto.
   Qed.
 
-  Lemma forced_desc n c m : reset_forced W b n c m = c m \/ m = n \/ anc n m.
+  Lemma forced_desc n c m : reset_forced W b n c m = c m \/ m = n \/ bdesc n m.
   Proof.
     rewrite forced_unfold.
     destruct (fold_desc N n m (reset_desc N) (succs n) (upd c n VNone) ltac:(auto)) as [E|A]; auto.
